@@ -575,6 +575,9 @@ func runC09(c *fw.Case) {
 		equalsBoth(c, "f, f without its last row", qf, qf.Slice(0, n-1), false, "neg-len")
 	}
 
+	// ---- pairs of frames that share column storage but pair different physical rows
+	sharedStoragePairs(c, rng)
+
 	// ---- same operation on f and rebuild(f)
 	kindsMap := sh.Kinds()
 	for k := 0; k < 4; k++ {
@@ -670,4 +673,103 @@ func sameResultOrders(rng *rand.Rand, sh *model.Frame) []qframe.Order {
 		}
 	}
 	return append(orders, qframe.Order{Column: model.IDCol, Reverse: rng.Intn(2) == 0})
+}
+
+// framesEqualRef decides cell-wise equality of two observations the way Equals is specified:
+// same names/order/types, null equals null, NaN equals NaN, enum cells by string value.
+func framesEqualRef(a, b *model.Frame) bool {
+	if len(a.Cols) != len(b.Cols) || a.Len() != b.Len() {
+		return false
+	}
+	for i, ca := range a.Cols {
+		cb := b.Cols[i]
+		if ca.Name != cb.Name || ca.Kind != cb.Kind {
+			return false
+		}
+		for r := 0; r < ca.Len(); r++ {
+			if ca.Kind == model.KFloat {
+				x, y := ca.F[r], cb.F[r]
+				if !(x == y || (math.IsNaN(x) && math.IsNaN(y))) {
+					return false
+				}
+			} else if !model.CellEq(ca, r, cb, r) {
+				return false
+			}
+		}
+	}
+	return true
+}
+
+// sharedStoragePairs builds a frame whose second half repeats the first half (string-like cells possibly
+// in another letter case, later upper-cased in place through the built-in enum ToUpper), and compares
+// Equals on pairs of frames derived from it with the verdict computed from their observations.
+func sharedStoragePairs(c *fw.Case, rng *rand.Rand) {
+	n := 1 + rng.Intn(12)
+	half := model.GenFrame(rng, model.GenOpts{Rows: n, MinCols: 1, MaxCols: 4, NoCR: true, NoInf: true, UTF8: true,
+		Strings: []string{"ab", "AB", "Ab", "aB", "cd", "CD", "x", "X", "", "é", "É"}, LowCard: 3})
+	f := &model.Frame{}
+	var enumCols []string
+	for _, col := range half.Cols {
+		d := model.NewCol(col.Name, col.Kind, 2*n)
+		d.EnumKnown = col.EnumKnown // derived enum (values collected from the data)
+		for r := 0; r < n; r++ {
+			d.Set(r, col, r)
+			d.Set(n+r, col, r)
+			if col.Kind == model.KEnum && col.S[r] != nil && rng.Intn(2) == 0 {
+				d.S[n+r] = model.StrP(strings.ToLower(*col.S[r]))
+			}
+		}
+		if col.Kind == model.KEnum {
+			enumCols = append(enumCols, col.Name)
+		}
+		f.Cols = append(f.Cols, d)
+	}
+	qf := model.BuildNew(rng, f)
+	if qf.Err != nil {
+		return
+	}
+	for _, ec := range enumCols {
+		var next qframe.QFrame
+		if pv, _ := fw.Guard(func() { next = qf.Apply(qframe.Instruction{Fn: "ToUpper", DstCol: ec, SrcCol1: ec}) }); pv != nil || next.Err != nil {
+			return
+		}
+		qf = next
+	}
+	var frames []qframe.QFrame
+	pv, _ := fw.Guard(func() {
+		frames = append(frames, qf.Slice(0, n), qf.Slice(n, 2*n))
+		names := qf.ColumnNames()
+		o := qframe.Order{Column: names[rng.Intn(len(names))], Reverse: rng.Intn(2) == 0}
+		if qf.ColumnTypeMap()[o.Column] != "enum" {
+			frames = append(frames, qf.Slice(0, n).Sort(o), qf.Slice(n, 2*n).Sort(o))
+		}
+		k := rng.Intn(n + 1)
+		frames = append(frames, qf.Slice(k, k+n))
+	})
+	if pv != nil {
+		return
+	}
+	obs := make([]*model.Frame, len(frames))
+	for i, fr := range frames {
+		o, err := model.ObserveGuard(fr)
+		if err != nil {
+			return
+		}
+		obs[i] = o
+	}
+	for i := 0; i < len(frames); i++ {
+		for j := i + 1; j < len(frames); j++ {
+			want := framesEqualRef(obs[i], obs[j])
+			key := "shared-storage"
+			if len(enumCols) > 0 {
+				key += "+enum-toupper"
+			}
+			equalsBoth(c, fmt.Sprintf("two frames derived from one frame of %d rows (pair %d,%d; observed contents equal: %v)", 2*n, i, j, want), frames[i], frames[j], want, key)
+			if want {
+				c.Count("shared_storage_equal_pairs", 1)
+			} else {
+				c.Count("shared_storage_unequal_pairs", 1)
+			}
+		}
+	}
 }
